@@ -72,7 +72,7 @@ CHECKS = {
         "Tie: token-level fuzz (directive fragments, metacharacters, escaped parentheses before ?i:, braces, quotes, control and non-ASCII bytes; stdin and include file) through Operator.Run and through the clean-up passes in real code and model — same result or same fault class; binary on stdin (no runtime error text, no timeout); EngineShape monitored on every Join result.",
    design="§7 C19", technique="Lean 4 proof (unreachability of runtime faults; invariant: balanced text) + token-level differential fuzzing"),
  "C03": dict(
-   text="The model is a function of its inputs. Lean theorems remove the only source of run-to-run variation, map iteration order, site by site: C03_classification_unambiguous (for every line at most one of the seven directive recognisers matches, so the order in which parseLine tries the pattern map is irrelevant), C03_flags_order_free; the include-except site is modelled by its order-free result (C06), the definitions map by explicit order parameters (C07). "
+   text="The model is a function of its inputs. Lean theorems remove the only source of run-to-run variation, map iteration order, site by site: C03_classification_unambiguous (for every line at most one of the seven directive recognisers matches, so the order in which parseLine tries the pattern map is irrelevant), C03_flags_order_free, C03_include_except_order_free (the include-except line map: entries carry pairwise distinct line indices, so whatever order the map yields and whatever algorithm sorts, the result is the model's dedupLast/filter — eq_of_perm_sorted); the definitions map is handled by explicit order parameters (C07). "
         "A go/ast extractor lists every `range` over a map in the modelled packages on each run and compares it with the list the model covers (a new site is a broken obligation). Tie/search: every program executed 10/40 times in one process (Go randomises every map iteration) and as fresh processes, byte-compared.",
    design="§7 C03", technique="Lean 4 proof (disjointness of recognisers, order-freeness per map site) + source-derived site list + repeated execution"),
  "C04": dict(
